@@ -25,6 +25,7 @@ RULE = ('R-produced messages over editions 2/3/4 x section 2 present/absent x ra
         'malformed expressions; info-only vs full; info-only on noise-filled data sections; info-only stream scan '
         'with declared total length > encoded length.  Non-trivial = name occurring in >= 2 sections or an explicit '
         'index; distinct by SHA-1 of (message bytes, expression); section indices up to 1000; info-only decodes after lenient full decodes on the same decoder and together with ignore_value_expectation; `pybufrkit query %expr`')
+RULE += '; added with rounds 10-12: metadata of messages delivered / decoded while scans are suspended (mid-scan scenarios, metadata-only and full); twins (another definitions directory)'
 ASSUMPTIONS = ['R\'s section layouts (mon/refbufr/frame.py) are the FM-94 octet layouts under the repository\'s parameter names',
                'the value of %template_data is not compared (it is the decoded data object)',
                'the empty expression and expressions with more than one dot are outside the stated space (recorded, not judged)',
